@@ -23,9 +23,13 @@ func (g *gen) rng() *rand.Rand { return g.r.Rng }
 
 func genumLines(c *genumCase) []string {
 	o := optWords(c.opts)
-	ls := []string{c.header(), "gg genum run", "gg genum type Alpha",
-		strings.TrimSpace("gg genum methods " + o + " " + strings.Join(c.traitNames(), " "))}
-	if c.shape == "two" {
+	ls := []string{c.header(), "gg genum run"}
+	if c.prev != "" {
+		ls = append(ls, "gg genum overprev")
+	}
+	ls = append(ls, "gg genum type Alpha",
+		strings.TrimSpace("gg genum methods "+o+" "+strings.Join(c.traitNames(), " ")))
+	if c.shape == "two" && !c.only1 {
 		ls = append(ls, "gg genum type Beta", "gg genum methods "+o)
 	}
 	ls = append(ls, "gg genum imports "+o, "gg genum assert "+o, "gg genum fmt",
@@ -43,6 +47,9 @@ func genumLines(c *genumCase) []string {
 func gerrorLines(c *gerrorCase) []string {
 	s := tf(c.skip)
 	ls := []string{c.header(), "gg gerror run"}
+	if c.prev != "" {
+		ls = append(ls, "gg gerror overprev")
+	}
 	for _, tn := range c.typeNames() {
 		ls = append(ls, "gg gerror type "+tn, "gg gerror methods "+s)
 	}
@@ -51,6 +58,9 @@ func gerrorLines(c *gerrorCase) []string {
 
 func gsortLines(c *gsortCase) []string {
 	ls := []string{c.header(), "gg gsort run"}
+	if c.prev != "" {
+		ls = append(ls, "gg gsort overprev")
+	}
 	names := []string{}
 	for n := range c.sorters() {
 		names = append(names, n)
@@ -132,7 +142,8 @@ func cols(spec string) []traitCol {
 
 var genumBase = []genumCase{
 	{n: 3, under: "int", traits: cols("ustr+p,uflt,dur"), shape: "plain"},
-	{n: 2, under: "uint8", traits: cols("urune,i64+p,label,ubool"), shape: "plain"},
+	// parsable traits of a named string and a named int type under every marshaler subset
+	{n: 2, under: "uint8", traits: cols("urune,i64+p,label+p,level+p,ubool"), shape: "plain"},
 	{n: 17, under: "int32", shape: "dup"},
 }
 
@@ -226,13 +237,17 @@ func (g *gen) run() {
 	for bi := range bases {
 		for oi, o := range allOpts() {
 			c := bases[bi]
+			if len(c.traits) == 0 && o[4] {
+				continue // -disableTraits changes nothing for a definition without trait columns
+			}
 			c.opts = o
 			c.traits = append([]traitCol{}, c.traits...)
-			if bi < len(genumBase) && oi%4 == 1 {
-				// another parsable subset of the columns that can be parsable
+			if bi < len(genumBase) && o[3] {
+				// under -caseInsensitive: another parsable subset per marshaler subset; without it
+				// the base subset meets all eight marshaler subsets
 				for j := range c.traits {
 					if traitKinds[c.traits[j].kind].uniq {
-						c.traits[j].parsable = (oi>>2+j)%2 == 0
+						c.traits[j].parsable = (oi&7+j)%2 == 0
 					}
 				}
 			}
@@ -266,7 +281,7 @@ func (g *gen) run() {
 		}
 	}
 	// (4) random definitions x random settings
-	n := 12
+	n := 6
 	if g.thorough {
 		n = 400
 	}
@@ -276,6 +291,31 @@ func (g *gen) run() {
 	// (5) definition shapes whose failures are other properties' subjects (C12), under their own keys
 	g.addGenum(&genumCase{n: 2, under: "int", shape: "duptraits", traits: cols("ustr,uint"), opts: [5]bool{true, true, true, false, false}}, "genum:duplicate-with-traits")
 	g.addGenum(&genumCase{n: 2, under: "int", shape: "plain", traits: cols("code+p,mark+p"), opts: [5]bool{true, true, true, false, false}}, "genum:two-self-unmarshalling")
+
+	// (6) regeneration over a DIFFERENT previous output that is longer (all marshalers on before they
+	// are switched off, more -types before fewer): must equal a generation into a fresh package
+	g.addGenum(&genumCase{n: 3, under: "int", shape: "plain", traits: cols("ustr+p,label+p"), opts: [5]bool{false, false, true, false, false}, prev: "allon"}, "genum:over-previous")
+	g.addGenum(&genumCase{n: 2, under: "int", shape: "plain", traits: cols("uint,dur"), opts: [5]bool{true, true, true, false, true}, prev: "allon"}, "genum:over-previous")
+	g.addGenum(&genumCase{n: 2, under: "int", shape: "two", only1: true, traits: cols("ustr"), opts: [5]bool{true, true, true, false, false}, prev: "moretypes"}, "genum:over-previous")
+	g.addGerror(&gerrorCase{two: true, only1: true, prev: "moretypes", fields: []gerrField{{"Code", "int", "pc"}}}, "gerror:over-previous")
+	g.addGerror(&gerrorCase{skip: true, custom: false, prev: "noskip", fields: []gerrField{{"Code", "int", "pc"}, {"When", "dur", "c"}}}, "gerror:over-previous")
+	g.addGsort(&gsortCase{two: true, only1: true, prev: "moretypes", fields: []gsortField{{"A", "int", []string{"ByA,1", "*ByAP,1"}}, {"B", "string", []string{"ByA,2"}}}}, "gsort:over-previous")
+	if g.thorough {
+		for i := 0; i < g.r.N(40); i++ {
+			c := g.randomGenum()
+			c.prev = "allon"
+			if c.shape == "two" {
+				c.only1, c.prev = true, "moretypes"
+			}
+			g.addGenum(c, "genum:over-previous")
+			e := g.randomGerror()
+			e.two, e.only1, e.prev = true, true, "moretypes"
+			g.addGerror(e, "gerror:over-previous")
+			s := g.randomGsort()
+			s.two, s.only1, s.prev = true, true, "moretypes"
+			g.addGsort(s, "gsort:over-previous")
+		}
+	}
 
 	// gerror: with/without -skipConvertGen (caller-written Convert or the promoted one) on every base definition
 	gerrBase := []gerrorCase{
